@@ -58,7 +58,11 @@ def cfgs_tla(cfgs):
 
 
 # ------------------------------------------------------------------ concretiser
-STYLES = ["ascii", "unicode", "escapes", "control", "dollar_inside", "digits", "long", "jsonlike", "b64like", "spaces"]
+STYLES = ["ascii", "unicode", "escapes", "control", "dollar_inside", "digits", "long", "jsonlike", "b64like", "spaces", "pseudolike", "percent"]
+CLASH_STYLES = STYLES + ["classclash", "classclash"]      # C05 only: the same text in several lexical classes (tokens are then not unique per leaf)
+# a few texts that occur in several lexical classes within one run (a plain string spelled like an ObjectId, a date, a payload)
+CLASH = {"oid": ["65f1a2b3c4d5e6f708192a3b", "5e0000000000000000c1a5b0"], "date": ["2024-02-29T12:34:56.789Z", "1999-12-31T23:59:59.000Z"],
+         "b64": ["c2VjcmV0IGJ5dGVzIQ==", "AAECAwQFBgcICQoLDA0ODw=="]}
 EXOTIC_KEYS = ("uf1", "uf2", "uf3", "envkey")
 KEY_STYLES = ["%s\\", "C:\\Users\\%s", "%s\"q\"", "%sé漢\U0001d4b3", "%s\u2028x", "%s<&>", "%s sp ace", "%s\tt", "%s\x01\x7f", "%s/sl", "%s"]
 
@@ -88,6 +92,14 @@ def _plain(idn, style, rng):
         return tok + "AAAA==", tok
     if style == "spaces":
         return "  " + tok + " with spaces  ", tok
+    if style == "pseudolike":         # spelled like a pseudonym of the default replacement text
+        t = "REDACTED_%016x" % (idn * 2654435761 % (1 << 64))
+        return t, t
+    if style == "classclash":
+        t = rng.choice(CLASH["oid"] + CLASH["date"] + CLASH["b64"])
+        return t, t
+    if style == "percent":
+        return "100%% %s %d " + tok + " %!s(MISSING)", tok
     raise ValueError(style)
 
 
@@ -208,15 +220,21 @@ class Concretiser:
                                                             rng.randint(0, 23), rng.randint(0, 59), rng.randint(0, 59), idn % 1000)
             if v and rng.random() < 0.3:
                 s = s[:-1] + "+00:00"
+            if v and getattr(self, "clash", False) and rng.random() < 0.15:
+                s = rng.choice(CLASH["date"])
             node, tok = ('str', s), s
         elif cls == "oid":
             s = "%020x%04x" % (rng.getrandbits(80), idn % 65536)
+            if v and getattr(self, "clash", False) and rng.random() < 0.15:
+                s = rng.choice(CLASH["oid"])
             node, tok = ('str', s), s
         elif cls == "b64":
             raw = bytes(rng.getrandbits(8) for _ in range(12)) + idn.to_bytes(4, "big")      # a 16-byte UUID payload
             if v and rng.random() < 0.5:
                 raw += bytes(rng.getrandbits(8) for _ in range(rng.randint(1, 40)))
             s = base64.b64encode(raw).decode()
+            if v and getattr(self, "clash", False) and rng.random() < 0.15:
+                s = rng.choice(CLASH["b64"])
             node, tok = ('str', s), s
         elif cls in ("nsname", "nseq", "nsprefix", "nsother", "nsother2", "nsotherdb") and self.ns_style:
             d, c_, od, oc = self.ns_names()
@@ -244,6 +262,9 @@ class Concretiser:
             node, tok = ('str', s), s
         elif cls == "ip":
             s = "203.0.113.%d:%d" % (idn % 250 + 1, 40000 + idn % 20000)
+            if v and rng.random() < 0.5:
+                # the client may be connected over IPv6 (bracketed, with a zone, IPv4-mapped)
+                s = rng.choice(["[2001:db8::%x]:%d", "[fe80::%x%%eth0]:%d", "[::ffff:198.51.100.%d]:%d"]) % (idn % 250 + 1, 40000 + idn % 20000)
             node, tok = ('str', s), s
         elif cls == "plan":
             node = ('str', self.fn_plan() if self.fn_style else "IXSCAN { uf1: 1, uf2.sub: -1 }")
@@ -304,8 +325,14 @@ class Concretiser:
             coll = sh % ((i,) * sh.count("%d"))
             if v > 0 and rng.random() < 0.15:
                 coll = "$cmd"
-            osh = "Otq%dz" if v == 0 else rng.choice(["Otq%dz", "Otq%dz.sub%dq", "system.buckets.Otq%dz"])
-            self._nsn = ("Dbq%dz" % i, coll, "Odq%dz" % i, osh % ((i,) * osh.count("%d")))
+            osh = "Otq%dz" if v == 0 else rng.choice(["Otq%dz", "Otq%dz.sub%dq", "system.buckets.Otq%dz", "77%d33", "Otq%dz.20%d"])
+            db = "Dbq%dz" % i
+            if v > 0 and rng.random() < 0.2:
+                db = "70%d93" % i              # tenant-id style: an all-digit database name
+            if v > 0 and rng.random() < 0.15:
+                coll = rng.choice(["66%d17", "Clq%dz.20%d", "ledger%d.%d"])
+                coll = coll % ((i,) * coll.count("%d"))
+            self._nsn = (db, coll, "Odq%dz" % i, osh % ((i,) * osh.count("%d")))
         return self._nsn
 
     def ns_parts(self):
@@ -596,6 +623,7 @@ def process_chunk(args):
                 gid = (chunk_no * len(recs) + i) * nvar + v if False else len(cases)
                 c = Concretiser(seed, chunk_no * 100000 + i, v, keymap=keymap, styles=opts.get("styles"))
                 c.ns_style = bool(opts.get("ns_style"))
+                c.clash = bool(opts.get("clash"))
                 c.fn_style = bool(opts.get("fn_style"))
                 c.nsrel_by_variant = bool(opts.get("fn_style"))
                 tree = c.line(rec["in"], gid)
@@ -633,6 +661,12 @@ def process_chunk(args):
                 for name, r in byc.items():
                     if r.variant != 0:
                         continue
+                    if opts.get("fn_style"):
+                        # C15 concretises the namespace relation by variant (variant 0 = equal): the prediction belongs to the
+                        # abstract relation of the record, so it is comparable only when the two coincide
+                        nsl = [lf.cls for lf in r.leaves if lf.path == ("attr", "ns")]
+                        if nsl and nsl[0] != "nseq":
+                            continue
                     if r.out is not None and r.pred is not None:
                         toks, _ = r.aligned()
                         if drift(r.pred, toks, r.cfg):
@@ -655,9 +689,9 @@ def process_chunk(args):
 class Replay:
     """Streams TLC records into a process pool; merges what the workers report into a common.Verdict."""
 
-    def __init__(self, build, verdict, cfgs, judge_name, variants=1, chunk=1500, keymap=None, styles=None, drift=True, worker=None, ns_style=False, fn_style=False):
+    def __init__(self, build, verdict, cfgs, judge_name, variants=1, chunk=1500, keymap=None, styles=None, drift=True, worker=None, ns_style=False, fn_style=False, clash=False):
         self.b, self.v, self.cfgs = build, verdict, cfgs
-        self.opts = {"seed": verdict.seed, "variants": variants, "keymap": keymap, "styles": styles, "drift": drift, "ns_style": ns_style, "fn_style": fn_style}
+        self.opts = {"seed": verdict.seed, "variants": variants, "keymap": keymap, "styles": styles, "drift": drift, "ns_style": ns_style, "fn_style": fn_style, "clash": clash}
         self.pool = multiprocessing.get_context("fork").Pool(
             common.NCPU, initializer=_worker_init,
             initargs=({"cli": build.cli, "root": build.root, "inproc": build.inproc}, cfgs, judge_name, self.opts))
